@@ -479,7 +479,93 @@ pub fn assigns_variable_captured_by_another_closure(p: &Program) -> bool {
                 }
             }
         }
-        // the same question inside each lambda (its own nested lambdas are siblings there)
+        // the function (or enclosing lambda) itself assigns a variable that two of its closures mention:
+        // when the first of them is closed the other reads the copy, the frame writes the stack slot
+        let mut frame_assigned: Vec<String> = vec![];
+        fn frame_assigns(b: &Block, out: &mut Vec<String>) {
+            fn in_expr(e: &E, out: &mut Vec<String>) {
+                match e {
+                    E::Lambda(..) => {}
+                    E::Block(b) => frame_assigns(b, out),
+                    E::Bin(_, a, b) | E::PipeVal(a, b) => {
+                        in_expr(a, out);
+                        in_expr(b, out);
+                    }
+                    E::Neg(a) | E::Not(a) | E::Proj(a, _) | E::Field(a, _) | E::Mem(a, _) => in_expr(a, out),
+                    E::PipeFn { arg, .. } => in_expr(arg, out),
+                    E::Builtin(_, v) | E::Tuple(v) => v.iter().for_each(|x| in_expr(x, out)),
+                    E::CallFn { args, .. } => args.iter().for_each(|x| in_expr(x, out)),
+                    E::CallVal(c, v) => {
+                        in_expr(c, out);
+                        v.iter().for_each(|x| in_expr(x, out));
+                    }
+                    E::If(c, a, b) => {
+                        in_expr(c, out);
+                        in_expr(a, out);
+                        in_expr(b, out);
+                    }
+                    E::Record(fs) => fs.iter().for_each(|f| in_expr(&f.1, out)),
+                    E::Delay(_, x, t, _) => {
+                        in_expr(x, out);
+                        in_expr(t, out);
+                    }
+                    _ => {}
+                }
+            }
+            for s in &b.stmts {
+                match s {
+                    Stmt::Assign(n, x) => {
+                        out.push(n.clone());
+                        in_expr(x, out);
+                    }
+                    Stmt::Let(_, _, x) => in_expr(x, out),
+                }
+            }
+            in_expr(&b.result, out);
+        }
+        frame_assigns(b, &mut frame_assigned);
+        for n in &frame_assigned {
+            if info.iter().filter(|(_, used)| used.contains(n)).count() >= 2 {
+                return true;
+            }
+        }
+        // a closure that assigns a captured variable and is also used as a value (bound to a second
+        // name, passed on, stored): the scope exit of the other holder closes its upvalues
+        let mut bound: Vec<(&String, &E)> = vec![];
+        fn let_bound_lambdas<'a>(b: &'a Block, out: &mut Vec<(&'a String, &'a E)>) {
+            for s in &b.stmts {
+                if let Stmt::Let(Pat::Var(n), _, x @ E::Lambda(..)) = s {
+                    out.push((n, x));
+                }
+            }
+            visit_block(b, &mut |x| {
+                if let E::Block(ib) = x {
+                    for s in &ib.stmts {
+                        if let Stmt::Let(Pat::Var(n), _, l @ E::Lambda(..)) = s {
+                            out.push((n, l));
+                        }
+                    }
+                }
+            });
+        }
+        let_bound_lambdas(b, &mut bound);
+        for (name, lam) in bound {
+            let (mut a, mut u) = (vec![], vec![]);
+            names_assigned_or_used(lam, &mut a, &mut u);
+            if a.is_empty() {
+                continue;
+            }
+            let (mut total, mut callee) = (0usize, 0usize);
+            visit_block(b, &mut |x| match x {
+                E::Var(n) if n == name => total += 1,
+                E::CallVal(c, _) if matches!(&**c, E::Var(n) if n == name) => callee += 1,
+                E::PipeVal(_, f) if matches!(&**f, E::Var(n) if n == name) => callee += 1,
+                _ => {}
+            });
+            if total > callee {
+                return true;
+            }
+        }
         false
     };
     let mut bodies: Vec<&Block> = p.fns.iter().map(|f| &f.body).chain(std::iter::once(&p.dsp.body)).collect();
